@@ -71,7 +71,10 @@ def slot_dir(slot):
     """facts directory of a slot. The `repo` slot (facts of /repo itself) is shared and keyed by the tree's hash; every
     other slot holds the facts of some scratch tree and is private to the process, so that self-tests / seed evaluations
     running at the same time cannot replace each other's facts."""
-    return os.path.join(WORK, "facts-" + slot if slot == "repo" else "facts-%s-%d" % (slot, os.getpid()))
+    if slot == "repo" or slot.startswith("shared-"):
+        # `shared-<unique name>`: the caller runs several checks one after the other on ONE scratch tree and owns the name
+        return os.path.join(WORK, "facts-" + slot)
+    return os.path.join(WORK, "facts-%s-%d" % (slot, os.getpid()))
 
 
 def generate(repo="/repo", slot="repo", force=False, quiet=False):
